@@ -835,6 +835,11 @@ func cutPoints(t *rapid.T, label string, n int, k int, valid func(int) int) []in
 // events. Chunk boundaries respect what the format requires: element boundary; character boundary for
 // string-likes; multiples of 8 bits for non-final bit-array chunks. Data-event boundaries are
 // element/character aligned unless midChar / midElem is set.
+// EmitEmptyData makes EmitChunks sometimes put a zero-length data event in front of a chunk's data
+// (a receiver must take it: the interface does not forbid it, and the validator accepts it while the
+// chunk still has bytes outstanding). Set by the properties that look at raw events (C15).
+var EmitEmptyData bool
+
 func EmitChunks(t *rapid.T, out *[]ev.Event, at events.ArrayType, count uint64, data []byte, str bool, midChar bool, midElem bool) {
 	bit := at == events.ArrayTypeBit && !str
 	w := 1
@@ -884,7 +889,14 @@ func EmitChunks(t *rapid.T, out *[]ev.Event, at events.ArrayType, count uint64, 
 			return c
 		}
 		dcuts := cutPoints(t, "chunks.dcut", len(chunk), j, alignData)
+		emptyAt := -1
+		if EmitEmptyData && rapid.IntRange(0, 3).Draw(t, "chunks.empty") == 0 {
+			emptyAt = rapid.IntRange(0, len(dcuts)-2).Draw(t, "chunks.emptyAt")
+		}
 		for d := 0; d+1 < len(dcuts); d++ {
+			if d == emptyAt && dcuts[d] < len(chunk) {
+				*out = append(*out, ev.Event{K: ev.ArrayData, Bs: []byte{}})
+			}
 			if dcuts[d+1] == dcuts[d] {
 				continue
 			}
